@@ -40,6 +40,9 @@ class C18(FprCheck):
             o = MG.gen_opts(rng)
             if rng.random() < 0.7:
                 o["exclude_floating"] = True
+            elif k % 2 == 0:
+                o["exclude_floating"] = False
+                o["include_disconnected"] = rng.random() < 0.5      # exclusion off in both neighbour modes on the salts
             qs = MG.gen_queries(rng, o, 1)
             base = {"t": "base", "ref": ref, "conf": ci, "tr": None, "opts": o, "queries": qs}
             yield base
@@ -72,6 +75,21 @@ class C18(FprCheck):
                     missing = [a for a in fl if a not in centres]
                     if missing:
                         return {"key": "floating-atoms-do-not-contribute", "what": "with exclusion off, floating atoms %s have no identifier" % missing}
+                    # the same through the entry point the pipeline uses (options travel through another layer there)
+                    from e3fp.fingerprint.generate import fprints_dict_from_mol
+                    from harness.fpgen import dump_fp
+                    lvl = -1 if o["level"] is None else o["level"]
+                    try:
+                        d = fprints_dict_from_mol(mol, first=-1, **o)
+                        got = dump_fp(d[lvl][case["conf"] % mol.GetNumConformers()])
+                    except Exception as e:  # noqa: BLE001
+                        return {"key": "entry-raises:" + type(e).__name__, "what": "fprints_dict_from_mol raised %r" % e}
+                    f = MG.make_fprinter(o)
+                    f.run(conf, mol)
+                    want = dump_fp(f.get_fingerprint_at_level(lvl))
+                    if got != want:
+                        return {"key": "floating-atoms-do-not-contribute:entry-point",
+                                "what": "with exclusion off (include_disconnected=%s) fprints_dict_from_mol differs from the fingerprinter on a molecule with floating atoms %s" % (o["include_disconnected"], fl)}
             return None
         if case["t"] == "delete" and (not o["exclude_floating"] or bonded_heavy < 1 or nheavy <= 1):
             return None      # the property speaks about molecules that retain a bonded heavy atom, with exclusion on
